@@ -328,15 +328,33 @@ impl Chain {
         )
     }
 
+    /// Grant DataCap to account `client_idx` (verifier = account `verifier_idx`) through the repo's
+    /// workflow helpers (root multisig → AddVerifier → AddVerifiedClient); false if a helper's own
+    /// expectations did not hold.
+    pub fn grant_datacap(&self, verifier_idx: usize, client_idx: usize, bytes: u64) -> bool {
+        use fvm_shared::sector::StoragePower;
+        let (verifier, client) = (self.accounts[verifier_idx].0, self.accounts[client_idx].0);
+        let v = &self.w.vm;
+        std::panic::catch_unwind(std::panic::AssertUnwindSafe(|| {
+            fil_actors_integration_tests::util::verifreg_add_verifier(v, &verifier, StoragePower::from(bytes) * 2);
+            fil_actors_integration_tests::util::verifreg_add_client(v, &verifier, &client, StoragePower::from(bytes));
+        })).is_ok()
+    }
+
     /// Publish one (unverified) storage deal between account `client_idx` and miner `mi`.
     pub fn publish_deal(&self, mi: usize, client_idx: usize, tag: u64, start: i64, end: i64) -> (Applied, Option<u64>) {
+        self.publish_deal_v(mi, client_idx, tag, start, end, false)
+    }
+
+    /// `verified`: the client spends DataCap (it must have been granted some) and the market creates an allocation.
+    pub fn publish_deal_v(&self, mi: usize, client_idx: usize, tag: u64, start: i64, end: i64, verified: bool) -> (Applied, Option<u64>) {
         use fil_actor_market::{ClientDealProposal, DealProposal, Label, PublishStorageDealsParams, PublishStorageDealsReturn};
         use fvm_shared::crypto::signature::{Signature, SignatureType};
         let m = &self.miners[mi];
         let proposal = DealProposal {
             piece_cid: fil_actors_runtime::test_utils::make_piece_cid(format!("piece-{}", tag).as_bytes()),
             piece_size: fvm_shared::piece::PaddedPieceSize(1 << 20),
-            verified_deal: false,
+            verified_deal: verified,
             client: self.accounts[client_idx].0,
             provider: m.id,
             label: Label::String(format!("deal-{}", tag)),
